@@ -2,7 +2,7 @@
 # usage: sweep.sh <seed> <evidence dir or ""> [tier] [ids...]   -- runs every check once, one line per check
 SEED=$1; EVD=$2; TIER=${3:-quick}; shift 3 2>/dev/null
 IDS=${@:-01 02 03 04 05 06 07 08 09 10 11 12 13 14 15 16 17 18 19 20}
-cd /verif
+cd "$(dirname "$(readlink -f "$0")")/.."
 for i in $IDS; do
   s=$(date +%s)
   L=/tmp/sweep_${TIER}_${SEED}_C$i.log
